@@ -447,6 +447,30 @@ func newBroker(rep *reporter, c cfgSpec, ntopics, nparts int, latency time.Durat
 	return b
 }
 
+// newProducer opens the broker connection before the producer starts: Broker.Open marks the broker as opened before it
+// takes the lock, so a second goroutine can find `conn == nil` (ErrNotConnected) if it sends in that window.
+func newProducer(b *sarama.MockBroker, conf *sarama.Config, ntopics, nparts int) (sarama.AsyncProducer, sarama.Client, error) {
+	client, err := sarama.NewClient([]string{b.Addr()}, conf)
+	if err != nil {
+		return nil, nil, err
+	}
+	for t := 0; t < ntopics; t++ {
+		for p := 0; p < nparts; p++ {
+			if br, err := client.Leader(topicName(t), int32(p)); err == nil {
+				_, _ = br.Connected()
+			}
+		}
+	}
+	prod, err := sarama.NewAsyncProducerFromClient(client)
+	if err != nil {
+		client.Close()
+		return nil, nil, err
+	}
+	return prod, client, nil
+}
+
+var stuckSeen bool
+
 type reqObs struct {
 	Batches [][]int64 `json:"batches"` // topic, partition, ids...
 	Wire    int       `json:"wire"`
@@ -474,10 +498,11 @@ func runBroker(r *rand.Rand, c cfgSpec, msgs []msgSpec, ntopics, nparts int, lat
 	b := newBroker(rep, c, ntopics, nparts, latency)
 	defer b.Close()
 	conf := c.config()
-	prod, err := sarama.NewAsyncProducer([]string{b.Addr()}, conf)
+	prod, client, err := newProducer(b, conf, ntopics, nparts)
 	if err != nil {
 		return nil, nil, nil, err
 	}
+	defer client.Close()
 	codes := map[int64]int64{}
 	var wg sync.WaitGroup
 	wg.Add(2)
@@ -493,7 +518,7 @@ func runBroker(r *rand.Rand, c cfgSpec, msgs []msgSpec, ntopics, nparts int, lat
 	go func() {
 		defer wg.Done()
 		for e := range prod.Errors() {
-			code := int64(3)
+			code := int64(9) // failed downstream of the dispatcher (transport etc.): not this property's business
 			var ce sarama.ConfigurationError
 			switch {
 			case errors.Is(e.Err, sarama.ErrMessageSizeTooLarge):
@@ -503,9 +528,6 @@ func runBroker(r *rand.Rand, c cfgSpec, msgs []msgSpec, ntopics, nparts int, lat
 			}
 			mu.Lock()
 			codes[e.Msg.Metadata.(int64)] = code
-			if code == 3 {
-				setMon("producer:unexpected-error", fmt.Sprintf("message %d failed with %v", e.Msg.Metadata.(int64), e.Err))
-			}
 			mu.Unlock()
 		}
 	}()
@@ -515,20 +537,45 @@ func runBroker(r *rand.Rand, c cfgSpec, msgs []msgSpec, ntopics, nparts int, lat
 			time.Sleep(time.Duration(1+r.Intn(4)) * time.Millisecond)
 		}
 	}
-	done := make(chan struct{})
-	go func() { prod.AsyncClose(); wg.Wait(); close(done) }()
-	select {
-	case <-done:
-	case <-time.After(60 * time.Second):
-		return nil, nil, nil, errors.New("producer did not shut down within 60s")
+	// every configuration here has a timer or no trigger at all: each message must get its outcome without further input
+	patience := 25 * time.Second
+	if stuckSeen {
+		patience = 2 * time.Second // already reported once in this run: do not spend 25 s on every further case
 	}
+	waitUntil := time.Now().Add(patience)
+	for {
+		mu.Lock()
+		n := len(codes)
+		mu.Unlock()
+		if n >= len(msgs) || time.Now().After(waitUntil) {
+			break
+		}
+		time.Sleep(2 * time.Millisecond)
+	}
+	mu.Lock()
+	missing := len(msgs) - len(codes)
+	mu.Unlock()
+	if missing > 0 {
+		stuckSeen = true
+		// AsyncClose would wait for the stuck messages for ever: the producer is abandoned
+		setMon("flush:stuck-in-buffer", fmt.Sprintf("%d message(s) got no outcome within 25s after the last input although a flush timer is configured or no trigger is set", missing))
+	} else {
+		done := make(chan struct{})
+		go func() { prod.AsyncClose(); wg.Wait(); close(done) }()
+		select {
+		case <-done:
+		case <-time.After(60 * time.Second):
+			return nil, nil, nil, errors.New("producer did not shut down within 60s")
+		}
+	}
+	mu.Lock()
+	defer mu.Unlock()
 	byID := map[int64]msgSpec{}
 	for _, m := range msgs {
 		byID[m.ID] = m
 		code, ok := codes[m.ID]
 		if !ok {
 			code = 4
-			setMon("producer:no-outcome", fmt.Sprintf("message %d got no outcome", m.ID))
 		}
 		fate = append(fate, [2]int64{m.ID, code})
 		// monitor: oversize messages are rejected, clearly small ones are not
@@ -608,25 +655,49 @@ func coqMsgs(ms []msgSpec) string {
 
 // ---------------------------------------------------------------- (c) flushed without further input?
 type flushCase struct {
-	C      cfgSpec   `json:"cfg"`
-	Msgs   []msgSpec `json:"msgs"`
-	Expect bool      `json:"expect_flush"` // from the property statement: decides how long the harness waits
-	Class  string    `json:"class"`
+	C      cfgSpec     `json:"cfg"`
+	Rounds [][]msgSpec `json:"rounds"`
+	Expect bool        `json:"expect_flush"` // from the property statement: decides how long the harness waits per round
+	Class  string      `json:"class"`
+	// slow broker: response latency, and pauses (PauseMs after the messages with these 0-based indices of round 0)
+	LatencyMs  int   `json:"latency_ms,omitempty"`
+	PauseMs    int   `json:"pause_ms,omitempty"`
+	PauseAfter []int `json:"pause_after,omitempty"`
 }
 
 func genFlush(r *rand.Rand, id int) flushCase {
 	c := cfgSpec{Version: versions[r.Intn(len(versions))], MaxMessageBytes: 100000, MaxRequestSize: 100 * 1024 * 1024}
 	fc := flushCase{}
-	small := func(i int, sz int) msgSpec {
-		return msgSpec{ID: int64(i + 1), Topic: 0, Part: int32(0), Key: ip(r.Intn(5)), Val: ip(sz)}
+	next := 0
+	small := func(sz int) msgSpec {
+		next++
+		return msgSpec{ID: int64(next), Topic: 0, Part: int32(0), Key: ip(r.Intn(5)), Val: ip(sz)}
 	}
-	switch id % 6 {
+	round := func(k int) []msgSpec {
+		var ms []msgSpec
+		for i := 0; i < k; i++ {
+			ms = append(ms, small(10+r.Intn(50)))
+		}
+		return ms
+	}
+	switch id % 8 {
+	case 7: // timer only + count limit + a broker slower than the timer: a buffer whose timer has already fired is rolled
+		// over inside waitForSpace (the bridge was busy); the message that waited must still get its own timer
+		fc.Class, fc.Expect = "frequency-slow-broker", true
+		c.FlushFreqMs = 20
+		c.MaxMessages = 1 + r.Intn(3)
+		fc.LatencyMs, fc.PauseMs = 110, 36
+		fc.Rounds = append(fc.Rounds, round(1+c.MaxMessages+1))
+		fc.PauseAfter = []int{0, c.MaxMessages}
+		if r.Intn(2) == 0 {
+			fc.Rounds = append(fc.Rounds, round(1))
+		}
 	case 0: // nothing configured: immediately
 		fc.Class, fc.Expect = "no-trigger", true
 		for i, k := 0, 1+r.Intn(3); i < k; i++ {
-			fc.Msgs = append(fc.Msgs, small(i, 10+r.Intn(50)))
+			fc.Rounds = append(fc.Rounds, round(1+r.Intn(3)))
 		}
-	case 1: // frequency only, or frequency with triggers that are not reached: by timer
+	case 1: // frequency only, or frequency with triggers that are not reached: by timer, round after round
 		fc.Class, fc.Expect = "frequency", true
 		c.FlushFreqMs = []int{10, 40, 120}[r.Intn(3)]
 		if r.Intn(2) == 0 {
@@ -635,81 +706,95 @@ func genFlush(r *rand.Rand, id int) flushCase {
 		if r.Intn(2) == 0 {
 			c.FlushBytes = 50000
 		}
-		for i, k := 0, 1+r.Intn(3); i < k; i++ {
-			fc.Msgs = append(fc.Msgs, small(i, 10+r.Intn(50)))
+		for i, k := 0, 2+r.Intn(2); i < k; i++ {
+			fc.Rounds = append(fc.Rounds, round(1+r.Intn(3)))
 		}
-	case 2: // message trigger reached exactly by the last message
+	case 2: // message trigger reached exactly by the last message of each round
 		fc.Class, fc.Expect = "messages-reached", true
 		c.FlushMessages = 1 + r.Intn(4)
 		if r.Intn(2) == 0 {
 			c.MaxMessages = c.FlushMessages + r.Intn(3)
 		}
-		for i := 0; i < c.FlushMessages; i++ {
-			fc.Msgs = append(fc.Msgs, small(i, 10+r.Intn(50)))
+		for i, k := 0, 1+r.Intn(2); i < k; i++ {
+			fc.Rounds = append(fc.Rounds, round(c.FlushMessages))
 		}
 	case 3: // message trigger not reached, no timer: stays buffered
 		fc.Class, fc.Expect = "messages-not-reached", false
 		c.FlushMessages = 2 + r.Intn(4)
-		for i, k := 0, 1+r.Intn(c.FlushMessages-1); i < k; i++ {
-			fc.Msgs = append(fc.Msgs, small(i, 10+r.Intn(50)))
-		}
+		fc.Rounds = append(fc.Rounds, round(1+r.Intn(c.FlushMessages-1)))
 	case 4: // byte trigger crossed by the last message only
 		fc.Class, fc.Expect = "bytes-reached", true
 		c.FlushBytes = 600 + r.Intn(600)
-		k := 1 + r.Intn(3)
-		for i := 0; i < k-1; i++ {
-			fc.Msgs = append(fc.Msgs, small(i, 20+r.Intn(40)))
+		ms := round(r.Intn(3))
+		for i := range ms {
+			ms[i].Val = ip(20 + r.Intn(40))
 		}
-		fc.Msgs = append(fc.Msgs, small(k-1, c.FlushBytes+10))
-	default: // byte trigger clearly not reached
+		fc.Rounds = append(fc.Rounds, append(ms, small(c.FlushBytes+10)))
+	case 5: // byte trigger clearly not reached
 		fc.Class, fc.Expect = "bytes-not-reached", false
 		c.FlushBytes = 2000 + r.Intn(1000)
-		for i, k := 0, 1+r.Intn(3); i < k; i++ {
-			fc.Msgs = append(fc.Msgs, small(i, 20+r.Intn(40)))
+		fc.Rounds = append(fc.Rounds, round(1+r.Intn(3)))
+	default: // timer only, with a count limit that forces roll-overs while waiting for space; then a lone message
+		fc.Class, fc.Expect = "frequency-after-forced-rollover", true
+		c.FlushFreqMs = []int{30, 60}[r.Intn(2)]
+		c.MaxMessages = 1 + r.Intn(3)
+		fc.Rounds = append(fc.Rounds, round(c.MaxMessages+1+r.Intn(2*c.MaxMessages+1)))
+		fc.Rounds = append(fc.Rounds, round(1))
+		if r.Intn(2) == 0 {
+			fc.Rounds = append(fc.Rounds, round(1+r.Intn(c.MaxMessages+2)))
 		}
 	}
 	fc.C = c
 	return fc
 }
 
-// returns whether all messages were acknowledged without any further input
-func runFlush(fc flushCase) (bool, error) {
+// per attempted round: were all messages sent so far acknowledged without any further input?
+func runFlush(fc flushCase) ([]bool, error) {
 	rep := &reporter{}
-	b := newBroker(rep, fc.C, 1, 1, 0)
+	b := newBroker(rep, fc.C, 1, 1, time.Duration(fc.LatencyMs)*time.Millisecond)
 	defer b.Close()
-	prod, err := sarama.NewAsyncProducer([]string{b.Addr()}, fc.C.config())
+	prod, client, err := newProducer(b, fc.C.config(), 1, 1)
 	if err != nil {
-		return false, err
+		return nil, err
 	}
-	for _, m := range fc.Msgs {
-		prod.Input() <- m.build()
-	}
+	_ = client // closed with the process: an abandoned producer still uses it
 	wait := 400 * time.Millisecond
 	if fc.Expect {
 		wait = 15 * time.Second
 	}
-	deadline := time.After(wait)
-	got := 0
-	flushed := false
-loop:
-	for got < len(fc.Msgs) {
-		select {
-		case <-prod.Successes():
-			got++
-		case e := <-prod.Errors():
-			return false, fmt.Errorf("unexpected producer error %v", e.Err)
-		case <-deadline:
-			break loop
+	var res []bool
+	for ri, ms := range fc.Rounds {
+		for mi, m := range ms {
+			prod.Input() <- m.build()
+			if ri == 0 {
+				for _, pa := range fc.PauseAfter {
+					if pa == mi {
+						time.Sleep(time.Duration(fc.PauseMs) * time.Millisecond)
+					}
+				}
+			}
+		}
+		deadline := time.After(wait)
+		got := 0
+	loop:
+		for got < len(ms) {
+			select {
+			case <-prod.Successes():
+				got++
+			case e := <-prod.Errors():
+				return nil, fmt.Errorf("unexpected producer error %v", e.Err)
+			case <-deadline:
+				break loop
+			}
+		}
+		res = append(res, got == len(ms))
+		if got != len(ms) {
+			// still buffered: AsyncClose would wait for these messages for ever (no trigger will fire); the producer is abandoned
+			return res, nil
 		}
 	}
-	flushed = got == len(fc.Msgs)
 	done := make(chan struct{})
 	go func() {
-		if !flushed {
-			// still buffered: AsyncClose would wait for these messages for ever (no trigger will fire); the producer is abandoned
-			close(done)
-			return
-		}
 		prod.AsyncClose()
 		for range prod.Successes() {
 		}
@@ -720,9 +805,9 @@ loop:
 	select {
 	case <-done:
 	case <-time.After(60 * time.Second):
-		return false, errors.New("producer did not shut down within 60s")
+		return nil, errors.New("producer did not shut down within 60s")
 	}
-	return flushed, nil
+	return res, nil
 }
 
 // ---------------------------------------------------------------- main
@@ -822,7 +907,7 @@ func main() {
 	for i := range fcs {
 		fcs[i] = genFlush(r, i)
 	}
-	res := make([]bool, nf)
+	res := make([][]bool, nf)
 	errs := make([]error, nf)
 	sem := make(chan struct{}, 12)
 	var wg sync.WaitGroup
@@ -832,6 +917,9 @@ func main() {
 		go func(i int) {
 			defer wg.Done()
 			res[i], errs[i] = runFlush(fcs[i])
+			if errs[i] != nil { // a transport hiccup is not an observation: once more
+				res[i], errs[i] = runFlush(fcs[i])
+			}
 			<-sem
 		}(i)
 	}
@@ -842,10 +930,18 @@ func main() {
 			os.Exit(3)
 		}
 		var mon *cf.Monitor
-		if fc.Expect && !res[i] {
-			mon = &cf.Monitor{Signature: "flush:not-sent:" + fc.Class, What: fmt.Sprintf("%d buffered message(s) were not sent within 15s although the trigger holds (%s), with no further input", len(fc.Msgs), fc.Class)}
+		last := res[i][len(res[i])-1]
+		if fc.Expect && !last {
+			mon = &cf.Monitor{Signature: "flush:not-sent:" + fc.Class, What: fmt.Sprintf("round %d: %d buffered message(s) were not sent within 15s although the trigger holds (%s), with no further input", len(res[i]), len(fc.Rounds[len(res[i])-1]), fc.Class)}
 		}
-		term := fmt.Sprintf("{| fc_cfg := %s; fc_msgs := %s; fc_flushed := %s |}", fc.C.coq(), coqMsgs(fc.Msgs), cf.Bool(res[i]))
+		var rs, fl []string
+		for _, ms := range fc.Rounds {
+			rs = append(rs, coqMsgs(ms))
+		}
+		for _, x := range res[i] {
+			fl = append(fl, cf.Bool(x))
+		}
+		term := fmt.Sprintf("{| fc_cfg := %s; fc_rounds := %s; fc_flushed := %s |}", fc.C.coq(), cf.List(rs), cf.List(fl))
 		wf.Add(term, cf.Sidecar{Case: map[string]interface{}{"case": fc, "flushed": res[i]}, Kind: "flush:" + fc.Class, Nontrivial: true, Monitor: mon})
 	}
 	ws.Close()
